@@ -157,12 +157,16 @@ structure Sounds where
   name : List UInt8
   deriving Repr
 
+/-- `if !legacy { MapItemLayerV1DdraceSoundsV2::mandatory(raw, TooShortV2, InvalidVersion)?; }` -/
+def soundsV2Gate (raw : List Int) (legacy : Bool) : Res (List Int × List Int) :=
+  if legacy then .ok ([], []) else mandatory MapItemLayerV1DdraceSoundsV2 raw "TooShortV2"
+
 def Sounds.fromRaw (raw : List Int) (da db sa sb : Nat) (legacy : Bool) : Res Sounds :=
   match mandatory MapItemLayerV1DdraceSoundsV1 raw "TooShort" with
   | .err e => .err e
   | .panic s => .panic s
   | .ok (v1, _) =>
-    match (if legacy then Res.ok ([], []) else mandatory MapItemLayerV1DdraceSoundsV2 raw "TooShortV2") with
+    match soundsV2Gate raw legacy with
     | .err e => .err e
     | .panic s => .panic s
     | .ok _ =>
@@ -252,6 +256,55 @@ def extraIndex (raw : List Int) (version : Int) (flags : Nat) (da db : Nat) (too
   | none => .err s!"{tooShort}({raw.length})"
   | some v => getIndex v da db invalid
 
+/-- the four colour components, `try_u8` each -/
+def tilemapColor (v2 : List Int) : Res (Nat × Nat × Nat × Nat) :=
+  match tryU8 (w v2 3), tryU8 (w v2 4), tryU8 (w v2 5), tryU8 (w v2 6) with
+  | none, _, _, _ => .err s!"InvalidColor(Red,{w v2 3})"
+  | some _, none, _, _ => .err s!"InvalidColor(Green,{w v2 4})"
+  | some _, some _, none, _ => .err s!"InvalidColor(Blue,{w v2 5})"
+  | some _, some _, some _, none => .err s!"InvalidColor(Alpha,{w v2 6})"
+  | some cr, some cg, some cb, some ca => .ok (cr, cg, cb, ca)
+
+/-- `color_env_and_offset` -/
+def tilemapColorEnv (v2 : List Int) (ea eb : Nat) : Res (Option (Nat × Int)) :=
+  if w v2 7 = -1 then .ok none
+  else
+    match getIndex (w v2 7) ea eb "InvalidColorEnvelopeIndex" with
+    | .ok i => .ok (some (i, w v2 8))
+    | .err e => .err e
+    | .panic s => .panic s
+
+/-- the `match flags { … }` of `LayerTilemap::from_raw` -/
+def tilemapType (raw : List Int) (version : Int) (flags : Nat) (flagsField : Int)
+    (color : Nat × Nat × Nat × Nat) (colorEnv : Option (Nat × Int)) (image : Option Nat) (data : Nat)
+    (da db : Nat) : Res TilemapType :=
+  if flags = 0 then .ok (.normal color colorEnv image data)
+  else if flags = TILELAYERFLAG_GAME then .ok (.game data)
+  else if flags = TILELAYERFLAG_TELEPORT then
+    match extraIndex raw version flags da db "TooShortRaceTeleport" "InvalidRaceTeleportDataIndex" with
+    | .ok d => .ok (.teleport d data) | .err e => .err e | .panic s => .panic s
+  else if flags = TILELAYERFLAG_SPEEDUP then
+    match extraIndex raw version flags da db "TooShortRaceSpeedup" "InvalidRaceSpeedupDataIndex" with
+    | .ok d => .ok (.speedup d data) | .err e => .err e | .panic s => .panic s
+  else if flags = TILELAYERFLAG_FRONT then
+    match extraIndex raw version flags da db "TooShortDdraceFront" "InvalidDdraceFrontDataIndex" with
+    | .ok d => .ok (.front d data) | .err e => .err e | .panic s => .panic s
+  else if flags = TILELAYERFLAG_SWITCH then
+    match extraIndex raw version flags da db "TooShortDdraceSwitch" "InvalidDdraceSwitchDataIndex" with
+    | .ok d => .ok (.switch d data) | .err e => .err e | .panic s => .panic s
+  else if flags = TILELAYERFLAG_TUNE then
+    match extraIndex raw version flags da db "TooShortDdraceTune" "InvalidDdraceTuneDataIndex" with
+    | .ok d => .ok (.tune d data) | .err e => .err e | .panic s => .panic s
+  else .err s!"InvalidFlags({flagsField})"
+
+/-- `try_u32` of width and height, then the two zero tests -/
+def tilemapDims (v2 : List Int) : Res (Nat × Nat) :=
+  if w v2 0 < 0 then .err s!"InvalidWidth({w v2 0})"
+  else if w v2 1 < 0 then .err s!"InvalidHeight({w v2 1})"
+  else if w v2 0 = 0 then .err s!"InvalidWidth({w v2 0})"
+  else if w v2 1 = 0 then .err s!"InvalidHeight({w v2 1})"
+  else .ok ((w v2 0).toNat, (w v2 1).toNat)
+
 def Tilemap.fromRaw (raw : List Int) (da db ea eb ia ib : Nat) : Res Tilemap :=
   match mandatory MapItemLayerV1CommonV0 raw "TooShort" with
   | .err e => .err e
@@ -265,18 +318,11 @@ def Tilemap.fromRaw (raw : List Int) (da db ea eb ia ib : Nat) : Res Tilemap :=
       | .err e => .err e
       | .panic s => .panic s
       | .ok v3 =>
-        let flags := asU32 (w v2 2)
-        match tryU8 (w v2 3), tryU8 (w v2 4), tryU8 (w v2 5), tryU8 (w v2 6) with
-        | none, _, _, _ => .err s!"InvalidColor(Red,{w v2 3})"
-        | some _, none, _, _ => .err s!"InvalidColor(Green,{w v2 4})"
-        | some _, some _, none, _ => .err s!"InvalidColor(Blue,{w v2 5})"
-        | some _, some _, some _, none => .err s!"InvalidColor(Alpha,{w v2 6})"
-        | some cr, some cg, some cb, some ca =>
-          match (if w v2 7 = -1 then Res.ok none
-                 else match getIndex (w v2 7) ea eb "InvalidColorEnvelopeIndex" with
-                   | .ok i => Res.ok (some (i, w v2 8))
-                   | .err e => .err e
-                   | .panic s => .panic s) with
+        match tilemapColor v2 with
+        | .err e => .err e
+        | .panic s => .panic s
+        | .ok color =>
+          match tilemapColorEnv v2 ea eb with
           | .err e => .err e
           | .panic s => .panic s
           | .ok colorEnv =>
@@ -288,38 +334,18 @@ def Tilemap.fromRaw (raw : List Int) (da db ea eb ia ib : Nat) : Res Tilemap :=
               | .err e => .err e
               | .panic s => .panic s
               | .ok data =>
-                let version := w v0 0
-                let ty : Res TilemapType :=
-                  if flags = 0 then .ok (.normal (cr, cg, cb, ca) colorEnv image data)
-                  else if flags = TILELAYERFLAG_GAME then .ok (.game data)
-                  else if flags = TILELAYERFLAG_TELEPORT then
-                    match extraIndex raw version flags da db "TooShortRaceTeleport" "InvalidRaceTeleportDataIndex" with
-                    | .ok d => .ok (.teleport d data) | .err e => .err e | .panic s => .panic s
-                  else if flags = TILELAYERFLAG_SPEEDUP then
-                    match extraIndex raw version flags da db "TooShortRaceSpeedup" "InvalidRaceSpeedupDataIndex" with
-                    | .ok d => .ok (.speedup d data) | .err e => .err e | .panic s => .panic s
-                  else if flags = TILELAYERFLAG_FRONT then
-                    match extraIndex raw version flags da db "TooShortDdraceFront" "InvalidDdraceFrontDataIndex" with
-                    | .ok d => .ok (.front d data) | .err e => .err e | .panic s => .panic s
-                  else if flags = TILELAYERFLAG_SWITCH then
-                    match extraIndex raw version flags da db "TooShortDdraceSwitch" "InvalidDdraceSwitchDataIndex" with
-                    | .ok d => .ok (.switch d data) | .err e => .err e | .panic s => .panic s
-                  else if flags = TILELAYERFLAG_TUNE then
-                    match extraIndex raw version flags da db "TooShortDdraceTune" "InvalidDdraceTuneDataIndex" with
-                    | .ok d => .ok (.tune d data) | .err e => .err e | .panic s => .panic s
-                  else .err s!"InvalidFlags({w v2 2})"
-                match ty with
+                match tilemapType raw (w v0 0) (asU32 (w v2 2)) (w v2 2) color colorEnv image data da db with
                 | .err e => .err e
                 | .panic s => .panic s
                 | .ok ty =>
-                  let name := match v3 with
-                    | some v3 => nameGet v3
-                    | none => zeroName
-                  if w v2 0 < 0 then .err s!"InvalidWidth({w v2 0})"
-                  else if w v2 1 < 0 then .err s!"InvalidHeight({w v2 1})"
-                  else if w v2 0 = 0 then .err s!"InvalidWidth({w v2 0})"
-                  else if w v2 1 = 0 then .err s!"InvalidHeight({w v2 1})"
-                  else .ok { width := (w v2 0).toNat, height := (w v2 1).toNat, type := ty, name := name }
+                  match tilemapDims v2 with
+                  | .err e => .err e
+                  | .panic s => .panic s
+                  | .ok (width, height) =>
+                    .ok { width := width, height := height, type := ty,
+                          name := match v3 with
+                            | some v3 => nameGet v3
+                            | none => zeroName }
 
 inductive LayerType where
   | quads (q : Quads)
@@ -336,28 +362,31 @@ def wrapErr {α : Type} (pre : String) : Res α → Res α
   | .err e => .err s!"{pre}({e})"
   | r => r
 
+/-- the `match v1.type_ { … }` of `Layer::from_raw` -/
+def layerDispatch (ty : Int) (detail : Bool) (rest : List Int) (da db ea eb ia ib sa sb : Nat) :
+    Res Layer :=
+  if ty = MAP_ITEMTYPE_LAYER_V1_TILEMAP then
+    match wrapErr "Tilemap" (Tilemap.fromRaw rest da db ea eb ia ib) with
+    | .ok t => .ok { detail := detail, t := .tilemap t } | .err e => .err e | .panic s => .panic s
+  else if ty = MAP_ITEMTYPE_LAYER_V1_QUADS then
+    match wrapErr "Quads" (Quads.fromRaw rest da db ia ib) with
+    | .ok q => .ok { detail := detail, t := .quads q } | .err e => .err e | .panic s => .panic s
+  else if ty = MAP_ITEMTYPE_LAYER_V1_DDRACE_SOUNDS ∨ ty = MAP_ITEMTYPE_LAYER_V1_DDRACE_SOUNDS_LEGACY then
+    match wrapErr "DdraceSounds" (Sounds.fromRaw rest da db sa sb
+        (decide (ty ≠ MAP_ITEMTYPE_LAYER_V1_DDRACE_SOUNDS))) with
+    | .ok s => .ok { detail := detail, t := .sounds s } | .err e => .err e | .panic s => .panic s
+  else .err s!"InvalidType({ty})"
+
 def Layer.fromRaw (raw : List Int) (da db ea eb ia ib sa sb : Nat) : Res Layer :=
   match fromSliceRest MapItemLayerV1 raw with
   | .tooShort => .err s!"TooShort({raw.length})"
   | .lowVersion _ => .panic "Layer::from_raw: unreachable!() (MapItemLayerV1 ignores the version)"
   | .panic s => .panic s
   | .found v1 rest =>
-    let flags := asU32 (w v1 1)
-    if Nat.land flags (4294967295 - LAYERFLAGS_ALL) ≠ 0 then .err s!"InvalidFlags({w v1 1})"
+    if Nat.land (asU32 (w v1 1)) (4294967295 - LAYERFLAGS_ALL) ≠ 0 then .err s!"InvalidFlags({w v1 1})"
     else
-      let detail := Nat.land flags LAYERFLAG_DETAIL ≠ 0
-      let ty := w v1 0
-      if ty = MAP_ITEMTYPE_LAYER_V1_TILEMAP then
-        match wrapErr "Tilemap" (Tilemap.fromRaw rest da db ea eb ia ib) with
-        | .ok t => .ok { detail := detail, t := .tilemap t } | .err e => .err e | .panic s => .panic s
-      else if ty = MAP_ITEMTYPE_LAYER_V1_QUADS then
-        match wrapErr "Quads" (Quads.fromRaw rest da db ia ib) with
-        | .ok q => .ok { detail := detail, t := .quads q } | .err e => .err e | .panic s => .panic s
-      else if ty = MAP_ITEMTYPE_LAYER_V1_DDRACE_SOUNDS ∨ ty = MAP_ITEMTYPE_LAYER_V1_DDRACE_SOUNDS_LEGACY then
-        match wrapErr "DdraceSounds" (Sounds.fromRaw rest da db sa sb
-            (decide (ty ≠ MAP_ITEMTYPE_LAYER_V1_DDRACE_SOUNDS))) with
-        | .ok s => .ok { detail := detail, t := .sounds s } | .err e => .err e | .panic s => .panic s
-      else .err s!"InvalidType({ty})"
+      layerDispatch (w v1 0) (decide (Nat.land (asU32 (w v1 1)) LAYERFLAG_DETAIL ≠ 0)) rest
+        da db ea eb ia ib sa sb
 
 structure Image where
   width : Nat
@@ -366,14 +395,21 @@ structure Image where
   data : Option Nat
   deriving Repr
 
+/-- `data`: `None` for an external image, else the checked data index -/
+def imageData (v1 : List Int) (da db : Nat) : Res (Option Nat) :=
+  if w v1 2 ≠ 0 then .ok none
+  else
+    match getIndex (w v1 4) da db "InvalidDataIndex" with
+    | .ok i => .ok (some i)
+    | .err e => .err e
+    | .panic s => .panic s
+
 def Image.fromRaw (raw : List Int) (da db : Nat) : Res Image :=
   match mandatory MapItemImageV1 raw "TooShort" with
   | .err e => .err e
   | .panic s => .panic s
   | .ok (v1, _) =>
-    match (if w v1 2 ≠ 0 then Res.ok none
-           else match getIndex (w v1 4) da db "InvalidDataIndex" with
-             | .ok i => Res.ok (some i) | .err e => .err e | .panic s => .panic s) with
+    match imageData v1 da db with
     | .err e => .err e
     | .panic s => .panic s
     | .ok data =>
@@ -392,6 +428,12 @@ structure Info where
   license : Option Nat
   settings : Option Nat
   deriving Repr
+
+/-- the settings index of a version-2 info item -/
+def infoSettings (v2 : Option (List Int)) (da db : Nat) : Res (Option Nat) :=
+  match v2 with
+  | some v2 => getIndexOpt (w v2 0) da db "InvalidSettingsIndex"
+  | none => .ok none
 
 def Info.fromRaw (raw : List Int) (da db : Nat) : Res Info :=
   match mandatory MapItemInfoV1 raw "TooShort" with
@@ -417,9 +459,7 @@ def Info.fromRaw (raw : List Int) (da db : Nat) : Res Info :=
           | .err e => .err e
           | .panic s => .panic s
           | .ok license =>
-            match (match v2 with
-                   | some v2 => getIndexOpt (w v2 0) da db "InvalidSettingsIndex"
-                   | none => Res.ok none) with
+            match infoSettings v2 da db with
             | .err e => .err e
             | .panic s => .panic s
             | .ok settings =>
@@ -542,6 +582,32 @@ structure GlAcc where
   switch : Option Nat := none
   tune : Option Nat := none
 
+/-- `put(&mut slot, d)?` for the slot selected by the tile layer type; `none` =
+`TooManyGameLayers`, `some none` = a normal layer (`continue`) -/
+def glPut (acc : GlAcc) : TilemapType → Option (Option GlAcc)
+  | .normal .. => some none
+  | .game d => match acc.game with
+    | none => some (some { acc with game := some d }) | some _ => none
+  | .teleport d _ => match acc.teleport with
+    | none => some (some { acc with teleport := some d }) | some _ => none
+  | .speedup d _ => match acc.speedup with
+    | none => some (some { acc with speedup := some d }) | some _ => none
+  | .front d _ => match acc.front with
+    | none => some (some { acc with front := some d }) | some _ => none
+  | .switch d _ => match acc.switch with
+    | none => some (some { acc with switch := some d }) | some _ => none
+  | .tune d _ => match acc.tune with
+    | none => some (some { acc with tune := some d }) | some _ => none
+
+/-- the `match group_index_width_height { … }` of `game_layers` -/
+def glDims (i : Nat) (g : Group) (tm : Tilemap) (acc : GlAcc) : Res GlAcc :=
+  match acc.gwh with
+  | some (gi, gw, gh) =>
+    if i ≠ gi then .err "TooManyGameGroups"
+    else if gw ≠ tm.width ∨ gh ≠ tm.height then .err "InconsistentGameLayerDimensions"
+    else .ok acc
+  | none => .ok { acc with gameGroup := some g, gwh := some (i, tm.width, tm.height) }
+
 /-- one layer of group `i` in `game_layers` -/
 def glLayer (r : Reader) (i : Nat) (g : Group) (k : Nat) (acc : GlAcc) : Res GlAcc :=
   match layer r k with
@@ -550,37 +616,20 @@ def glLayer (r : Reader) (i : Nat) (g : Group) (k : Nat) (acc : GlAcc) : Res GlA
   | .ok l =>
     match l.t with
     | .tilemap tm =>
-      let put (slot : Option Nat) (d : Nat) : Option (Option Nat) :=
-        match slot with
-        | none => some (some d)
-        | some _ => none
-      let acc' : Option (Option GlAcc) :=
-        match tm.type with
-        | .normal .. => some none
-        | .game d => (put acc.game d).map fun x => some { acc with game := x }
-        | .teleport d _ => (put acc.teleport d).map fun x => some { acc with teleport := x }
-        | .speedup d _ => (put acc.speedup d).map fun x => some { acc with speedup := x }
-        | .front d _ => (put acc.front d).map fun x => some { acc with front := x }
-        | .switch d _ => (put acc.switch d).map fun x => some { acc with switch := x }
-        | .tune d _ => (put acc.tune d).map fun x => some { acc with tune := x }
-      match acc' with
+      match glPut acc tm.type with
       | none => .err "TooManyGameLayers"
       | some none => .ok acc
-      | some (some acc) =>
-        match acc.gwh with
-        | some (gi, gw, gh) =>
-          if i ≠ gi then .err "TooManyGameGroups"
-          else if gw ≠ tm.width ∨ gh ≠ tm.height then .err "InconsistentGameLayerDimensions"
-          else .ok acc
-        | none => .ok { acc with gameGroup := some g, gwh := some (i, tm.width, tm.height) }
-    | _ => .ok acc
+      | some (some acc) => glDims i g tm acc
+    | .quads _ => .ok acc
+    | .sounds _ => .ok acc
 
 def glLayers (r : Reader) (i : Nat) (g : Group) : Nat → Nat → GlAcc → Res GlAcc
   | 0, _, acc => .ok acc
   | n + 1, k, acc =>
     match glLayer r i g k acc with
     | .ok acc => glLayers r i g n (k + 1) acc
-    | e => e
+    | .err e => .err e
+    | .panic s => .panic s
 
 def glGroups (r : Reader) : Nat → Nat → GlAcc → Res GlAcc
   | 0, _, acc => .ok acc
@@ -591,7 +640,8 @@ def glGroups (r : Reader) : Nat → Nat → GlAcc → Res GlAcc
     | .ok g =>
       match glLayers r i g (g.layersEnd - g.layersStart) g.layersStart acc with
       | .ok acc => glGroups r n (i + 1) acc
-      | e => e
+      | .err e => .err e
+      | .panic s => .panic s
 
 /-- `Reader::game_layers()` -/
 def gameLayers (r : Reader) : Res GameLayers :=
